@@ -570,6 +570,8 @@ impl Token {
 def run(run, replay=None):
     from units.C08 import cex
     run.fallbacks.append(("Lexer", lambda: cex.find(run)))
+    if run.tier == 'thorough':
+        run.explorations.append(("Lexer (random texts)", lambda: cex.explore_random(run)))
     unit = build(run)
     res = unit.run(rlimit=240, threads=16)
     run.add_verus(unit, res, cex_finder=lambda f: cex.find(run, f), expect_fail=tuple(run.extra.get('vacuity_probe_labels', ())))
